@@ -45,6 +45,12 @@ theorem embLv_name_ne1 (lv : Expr) (l : Node) (hf : FragLv lv = true) (h : EmbLv
     · obtain ⟨p, rfl⟩ := h; exact ⟨_, rfl, hv⟩
     · obtain ⟨p, q, rfl⟩ := h; exact ⟨_, rfl, by decide⟩
   | oprop v o => simp only [EmbLv, Emb] at h; obtain ⟨p, x, rfl, _⟩ := h; exact ⟨_, rfl, by decide⟩
+  | movie v =>
+    simp only [FragLv] at hf
+    simp only [EmbLv, Emb] at h
+    rcases h with ⟨p, rfl⟩ | ⟨p, q, o, rfl, _⟩
+    · exact ⟨_, rfl, fun e => idOk_ne_one v hf (Lscr.Name.s.inj e)⟩
+    · exact ⟨_, rfl, by decide⟩
   | the t k as =>
     simp only [FragLv, Bool.and_eq_true] at hf
     simp only [EmbLv] at h
